@@ -28,8 +28,14 @@ def handleGraph (op : String) (j : Json) : Option Json :=
     let lock : Task → LockSt := fun t => match strs "locks" t with | "held" => .held | "failed" => .failed | _ => .free
     let prev : Task → Status := fun t => stOf (strs "prev" t)
     let ts := List.range n
+    -- the shell's invalidate(r) for every matching root r, by the work-list algorithm as coded
+    let shellRuns := (ts.filter hit).map (fun r => shellLoop (revEdges deps n) (n * n + n + 2) [r] [])
+    let shellAll : Option (List Task) := shellRuns.foldl (fun acc o => match acc, o with
+      | some a, some b => some (a ++ b)
+      | _, _ => none) (some [])
     some <| Json.mkObj [
       ("aff", jList jNat (ts.filter (aff deps hit))),
+      ("shell", jOpt (fun l => jList jNat (ts.filter (fun t => l.contains t))) shellAll),
       ("status", jList (fun t => Json.str (stName (classify deps res lock t))) ts),
       ("cached", jList (fun t => Json.str (stName (classifyCached deps res lock prev t))) ts),
       ("check", Json.bool (checkWalk deps res n n []))]
